@@ -9,9 +9,8 @@ package main
 
 import (
 	"fmt"
-	"go/constant"
-	"golang.org/x/tools/go/ssa"
 	"go/token"
+	"golang.org/x/tools/go/ssa"
 	"math/big"
 	"sort"
 	"strings"
@@ -223,17 +222,49 @@ func ruleTPushOnly(c *Ctx) {
 }
 
 // forAllLoopTable: fn scans a list and answers whether every element's byte (the base term with the given
-// suffix) satisfies want.
+// suffix) satisfies want. Read from the paths that decide on an element: those from the entry and, for a
+// verdict carried to the next round in a flag, those that go on from a back edge of the loop (one more
+// round: the values merged at the loop header are what the round before left). On every value of the
+// element's byte the outcomes of the paths that hold must be: for a wanted value, going on to the next
+// element or answering true; for any other, answering false and nothing else. A scan that has looked at
+// no element answers true.
 func forAllLoopTable(c *Ctx, rule, key string, fn *ssa.Function, elemSuffix string, want func(int64) bool, okText, badText string) {
-	paths, err := feasiblePaths(fn, 20000)
+	first, err := feasiblePaths(fn, 20000)
 	if err != nil {
 		c.Undecided(rule, key, fn.Pos(), "cannot enumerate paths: "+err.Error())
 		return
 	}
+	paths := append([]*DPath{}, first...)
+	seenEdge := map[[2]*ssa.BasicBlock]bool{}
+	for _, p := range first {
+		if p.EndKind != "loop" || p.Target == nil || len(p.Blocks) == 0 {
+			continue
+		}
+		e := [2]*ssa.BasicBlock{p.Blocks[len(p.Blocks)-1], p.Target}
+		if seenEdge[e] {
+			continue
+		}
+		seenEdge[e] = true
+		more, err := enumPaths(e[1], e[0], nil, 20000)
+		if err != nil {
+			c.Undecided(rule, key, fn.Pos(), "cannot enumerate the paths of a further round: "+err.Error())
+			return
+		}
+		paths = append(paths, filterFeasible(more)...)
+	}
 	bases := map[string]*T{}
+	retTerm := func(p *DPath) *T {
+		if p.EndKind == "return" && p.Ret != nil && len(p.Ret.Results) == 1 {
+			return p.Env.Term(p.Ret.Results[0])
+		}
+		return nil
+	}
 	for _, p := range paths {
 		for _, cd := range p.Conds {
 			baseTerms(cd.Cond, bases)
+		}
+		if t := retTerm(p); t != nil {
+			baseTerms(t, bases)
 		}
 	}
 	elem := ""
@@ -250,41 +281,47 @@ func forAllLoopTable(c *Ctx, rule, key string, fn *ssa.Function, elemSuffix stri
 		c.Undecided(rule, key, fn.Pos(), "no decision on the element's "+elemSuffix)
 		return
 	}
-	outcome := func(p *DPath) string {
+	mentionsT := func(t *T) bool {
+		bt := map[string]*T{}
+		baseTerms(t, bt)
+		return bt[elem] != nil
+	}
+	mentions := func(p *DPath) bool {
+		for _, cd := range p.Conds {
+			if mentionsT(cd.Cond) {
+				return true
+			}
+		}
+		if t := retTerm(p); t != nil && mentionsT(t) {
+			return true
+		}
+		return false
+	}
+	outcome := func(p *DPath, asg map[string]*big.Int) string {
 		switch {
 		case p.EndKind == "loop":
 			return "next"
-		case p.EndKind == "return" && p.Ret != nil && len(p.Ret.Results) == 1:
-			t := p.Env.Term(p.Ret.Results[0])
-			if t.K == "const" && t.C != nil && t.C.Kind() == constant.Bool {
-				if constant.BoolVal(t.C) {
+		case retTerm(p) != nil:
+			if v, ok := evalTerm(retTerm(p), asg); ok {
+				if v.Sign() != 0 {
 					return "true"
 				}
 				return "false"
 			}
+			return "a result that does not fold: " + retTerm(p).String()
 		}
 		return "other (" + p.EndKind + ")"
 	}
-	mentions := func(p *DPath) bool {
-		for _, cd := range p.Conds {
-			bt := map[string]*T{}
-			baseTerms(cd.Cond, bt)
-			if bt[elem] != nil {
-				return true
-			}
-		}
-		return false
-	}
 	var bad []string
-	// the scan that ends without looking at a further element
+	// the scan that ends without having looked at an element (from the entry)
 	ends := map[string]bool{}
-	for _, p := range paths {
-		if !mentions(p) {
-			ends[outcome(p)] = true
+	for _, p := range first {
+		if !mentions(p) && p.EndKind != "loop" {
+			ends[outcome(p, map[string]*big.Int{})] = true
 		}
 	}
 	if len(ends) != 1 || !ends["true"] {
-		bad = append(bad, fmt.Sprintf("with no further element the answer is %v, expected true", sortedKeys(ends)))
+		bad = append(bad, fmt.Sprintf("with no element the answer is %v, expected true", sortedKeys(ends)))
 	}
 	cells := 0
 	for v := int64(0); v < 256; v++ {
@@ -296,9 +333,7 @@ func forAllLoopTable(c *Ctx, rule, key string, fn *ssa.Function, elemSuffix stri
 			}
 			ok := true
 			for _, cd := range p.Conds {
-				bt := map[string]*T{}
-				baseTerms(cd.Cond, bt)
-				if bt[elem] == nil {
+				if !mentionsT(cd.Cond) {
 					continue
 				}
 				val, evaluated := evalTerm(cd.Cond, asg)
@@ -313,18 +348,18 @@ func forAllLoopTable(c *Ctx, rule, key string, fn *ssa.Function, elemSuffix stri
 				}
 			}
 			if ok {
-				got[outcome(p)] = true
+				got[outcome(p, asg)] = true
 			}
-		}
-		w := "false"
-		if want(v) {
-			w = "next"
 		}
 		cells++
-		if len(got) != 1 || !got[w] {
-			if len(bad) < 5 {
-				bad = append(bad, fmt.Sprintf("element %#x: code %v, rule %s", v, sortedKeys(got), map[string]string{"next": "goes on to the next element", "false": "answers false"}[w]))
+		good := len(got) > 0
+		for g := range got {
+			if want(v) && g != "next" && g != "true" || !want(v) && g != "false" {
+				good = false
 			}
+		}
+		if !good && len(bad) < 5 {
+			bad = append(bad, fmt.Sprintf("element %#x: code %v, rule %s", v, sortedKeys(got), map[bool]string{true: "goes on to the next element (or answers true after the last)", false: "answers false"}[want(v)]))
 		}
 	}
 	c.Covered[rule+":cells"] = cells
